@@ -91,6 +91,17 @@ def merge_table(ctx, cr):
     ctx.note_analysed("functions", MERGE)
     ctx.ob(rule, rule + ":map-entries", not problems, "; ".join(sorted(set(problems))[:3]) or "every absent key is inserted and recorded exactly once; a present key ends the merge", fn=f,
            sample={"fn": "PathAwareValue::merge", "rows": len(rows)})
+    # the receiver's keys and values are parallel structures: merge only adds to them, entry by entry; it never exchanges, replaces or
+    # takes one of them wholesale (std::mem::swap / replace / take, clear, retain ...), which would leave the other one behind
+    whole = []
+    for k2 in [MERGE] + [k for k in cr.fns if k.startswith(MERGE + "::{closure")]:
+        for bi, t in M.iter_calls(cr.fns[k2]):
+            p2 = M.norm_path(t["fn"].get("path", ""))
+            if p2 in ("std::mem::swap", "std::mem::replace", "std::mem::take") or (p2.split("::")[-1] in ("clear", "retain", "drain", "truncate", "split_off", "swap_remove", "shift_remove", "remove")
+                                                                                     and ("IndexMap" in p2 or "Vec" in p2)):
+                whole.append("%s (l.%s)" % (p2, t.get("ln")))
+    ctx.ob(rule, rule + ":entry-by-entry", not whole, ("merge applies %s: the key list and the value map of a struct no longer change together" % whole) if whole
+           else "merge only inserts / pushes / extends, entry by entry", fn=f)
     mm = rows.get(("Map", "Map"), set())
     dup = [r for r in mm if r[1] is True]
     ctx.ob(rule, rule + ":duplicate-key-is-an-error", bool(dup) and all(r[0] == "Err:MultipleValues" for r in dup), "duplicate key outcomes: %s" % sorted(map(str, dup)), fn=f)
@@ -238,6 +249,30 @@ def params_loop_invariant(ctx, cr):
             # closure upvars appear as (name, place through the environment)
             if up[0] in ("input_params", "extra_data") and not isinstance(up[1], int):
                 plocals.add(("upvar", json_key(up[1])))
+        # a `&mut` borrow of the parameters anywhere in these bodies (to be handed to a closure, say) is already a way to change them
+        for bi, si, st in M.iter_stmts(f):
+            rv = st.get("rv")
+            if rv and rv.get("r") == "ref" and rv.get("m") and not isinstance(rv["p"], int):
+                fnames = [pr[2] for pr in M.place_projs(rv["p"]) if isinstance(pr, list) and pr[0] == "f" and pr[2]]
+                if fnames and fnames[-1] == "input_params":
+                    bad.append("%s takes a mutable borrow of the input parameters (l.%s): whatever receives it can change them between data files" % (k.split("::")[-1], st.get("ln")))
+        upvar_keys = [json_key(x[1]) for x in plocals if isinstance(x, tuple)] if False else [x[1] for x in plocals if isinstance(x, tuple)]
+
+        def through_upvar(operand, depth=0):
+            from rules.c08 import def_of_local
+            pl_ = M.op_place(operand)
+            for _ in range(5):
+                if pl_ is None:
+                    return False
+                if not isinstance(pl_, int):
+                    kk = json_key(pl_)
+                    return any(kk.startswith(u[:-1]) or u.startswith(kk[:-1]) for u in upvar_keys)
+                d_ = def_of_local(f, pl_)
+                if not d_ or d_[0] != "stmt" or d_[2]["rv"]["r"] not in ("use", "ref"):
+                    return False
+                rv_ = d_[2]["rv"]
+                pl_ = M.op_place(rv_["o"]) if rv_["r"] == "use" else rv_["p"]
+            return False
         for bi, t in M.iter_calls(f):
             p = M.norm_path(t["fn"].get("path", ""))
             meth = p.split("::")[-1]
@@ -248,7 +283,7 @@ def params_loop_invariant(ctx, cr):
                 continue
             fld = receiver_field(cr, f, t["args"][0])
             _, _, locs = flow.backward_slice(f, M.place_local(pl))
-            touches = fld == "input_params" or bool(set(locs) & set(x for x in plocals if isinstance(x, int)))
+            touches = fld == "input_params" or bool(set(locs) & set(x for x in plocals if isinstance(x, int))) or (bool(upvar_keys) and through_upvar(t["args"][0]))
             if not touches:
                 continue
             n_reads += 1
